@@ -16,6 +16,7 @@ TRUSTED = [
     "modelled, not verified: go-diskqueue (a channel's queue is the multiset of messages waiting on it: placement and order are abstracted; only ephemeral queues are bounded), Go channels/select/mutexes (each operation is atomic at quiescence), time (every operation carries the harness's clock reading; timeouts are driven by VerifScan with margins of seconds)",
     "hooks /repo/nsqd/verif_core.go (VerifHeld, VerifScan: build tag verif); /stats over HTTP is the observation",
     "the coarse model is quiescent-to-quiescent: interleavings inside one operation (the windows K3-K5 of DESIGN.md section 6; K1 and K2 were repaired: F23, F24 of section 10.3) are below its grain; the schedule-level models of DESIGN 10.8 / 10.9 cover the lock protocol and the TOUCH / scan race",
+    "sub-operation model model/Counter.v (DESIGN 10.10): one consumer; the in-flight set's critical sections and the atomic count are single steps; the facts proofs/CounterSrc.v reads off the regenerated skeletons (decrement after a successful pop, Empty releases per message) are what ties it to the code",
 ]
 ASSUMPTIONS = ["published message ids are fresh (C12)", "disk write errors do not occur"]
 TECHNIQUE = "Coq invariant proofs over all operation histories of the core state machine + trace validation of real nsqd runs (model replay and property monitor evaluated by vm_compute)"
@@ -29,5 +30,6 @@ def drivers():
         return ["-profile", "c13", "-n", str(n), "-ops", "35", "-seed", str(seed)]
     return [{"driver": "coredrive", "args": args, "replay_args": lambda tier: [], "timeout": 1500}]
 LEVEL_TEXT = "Machine-checked proof (Coq) that for EVERY operation history within one daemon lifetime every channel satisfies message_count = depth + in-flight + deferred + finished + emptied (+ ephemeral overflow drops, zero on durable channels), that a topic's message_count/message_bytes change exactly by what each publish adds, that each consumer's finish/requeue/message counters equal the tally of its accepted FINs, REQs and deliveries over the whole history, and that its in-flight count equals the in-flight entries it owns (never negative). Trace validation: /stats?format=json of a real nsqd is compared with the model after every operation, and a model-independent ledger checks the conservation law, topic counters, each consumer's ready/in-flight/finish/requeue/message counts and non-negativity on every snapshot."
+LEVEL_TEXT = LEVEL_TEXT + " Sub-operation model of the consumer's count against the in-flight set (model/Counter.v): deliveries, FIN / REQ / timeouts and Channel.Empty, any number under any schedule - the count is the size of the set whenever the threads in progress have finished (C13_count_exact_every_schedule; the zeroing Empty of the source before 72b06c9 refuted); the rule is read off the CURRENT source (C13_count_rule_in_the_source)."
 LEVEL_NOTE = 'Text rendering of /stats and topic/channel filters are glue (compared by the harness in the thorough tier, not modelled). The partial-MPUB accounting branch needs a backend write error (not reachable without fault injection).'
 DESIGN_REF = "DESIGN.md section 5.0 and C13"
